@@ -537,6 +537,12 @@ func Pow(y tensor.Tensor, x tensor.Tensor, a float64) (gctx *GradContext) {
 				target: x,
 				gradFn: func() (tensor.Tensor, error) {
 					gy := y.Gradient()
+
+					// constant function; a*x^(a-1) is undefined at x = 0
+					if a == 0 {
+						return toZeros(gy), nil
+					}
+
 					gx := x.Pow(a - 1)
 					gx = gx.Scale(a)
 
